@@ -161,6 +161,7 @@ Proof.
   intros I V E. apply cupd_shape in E.
   destruct E as [[-> ->]|[s0 [-> [Hd0 E]]]]; [eapply cinva_log; eauto|].
   destruct I as [Ichain Iuniq Ihigh Ilim Idet Inodet Itrack Iini Ihint Ind Icl]. simpl in *.
+  specialize (V s0 eq_refl Hd0).
   assert (Hini : ini = []).
   { destruct ini as [|x r1]; auto. destruct (Iini x (or_introl eq_refl)) as [_ [s1 [b [Hs Hd]]]].
     sset Hs. congruence. }
